@@ -166,6 +166,14 @@ func c15Run(cs c15Case, r *rt.Result) (sig, detail string) {
 		if len(got) != n || string(got) != string(want) {
 			return "wrong-bytes/" + op + "/" + st, fmt.Sprintf("%s(%d) at flat offset %d returned %x, model has %x", op, n, before, got, want)
 		}
+		// what a read returns belongs to the caller: it overwrites the
+		// slice and appends to it (writing into spare capacity, if any);
+		// the queue's own bytes must not change, which later reads and a
+		// restore + re-read show
+		full := got[:cap(got)]
+		for k := range full {
+			full[k] ^= 0x5A
+		}
 		// did this read cross a packet boundary?
 		off := 0
 		for _, p := range m.pk {
